@@ -945,6 +945,12 @@ def _load_data(rec, context):
                 cid = PixelComponentID(comp.axis, cid.label, parent=cid.parent)
                 comps[icomp] = (cid, comp)
 
+        if isinstance(comp, DerivedComponent):
+            # Not all links save the ID they compute (BinaryComponentLink is
+            # restored with a new anonymous one) but it should always be the
+            # ID of the component, e.g. for the link manager to find it.
+            comp.link.set_to_id(cid)
+
         result.add_component(comp, cid)
 
     assert result._world_component_ids == []
@@ -1391,6 +1397,12 @@ def _load_regiondata(rec, context):
             if not comp.world and not isinstance(cid, PixelComponentID):
                 cid = PixelComponentID(comp.axis, cid.label, parent=cid.parent)
                 comps[icomp] = (cid, comp)
+
+        if isinstance(comp, DerivedComponent):
+            # Not all links save the ID they compute (BinaryComponentLink is
+            # restored with a new anonymous one) but it should always be the
+            # ID of the component, e.g. for the link manager to find it.
+            comp.link.set_to_id(cid)
 
         result.add_component(comp, cid)
 
